@@ -2,18 +2,18 @@
 # dev helper: confirm a seeded change in its scratch worktree, then store it under /verif/seeded/<id>/.
 # usage: dev/seed_verify.sh <worktree> <name> <Cxx> <demo-pkg-dir> [extra test pkgs...]
 wt=$1; name=$2; prop=$3; demodir=$4; shift 4
-src=$wt/SEEDED/$name; id=$prop-$name
+src=$wt/${SEEDDIR:-SEEDED}/$name; id=$prop-$name
 export GOFLAGS=-mod=mod GOPROXY=off
-cd $wt && git checkout -q -- . && git clean -fdq -e SEEDED
+cd $wt && git checkout -q -- . && git clean -fdq -e SEEDED -e SEEDED3
 demo=$(ls $src/*_test.go | head -1)
 cp $demo $wt/$demodir/zz_seed_demo_test.go
 tests=$(grep -o "^func Test[A-Za-z0-9_]*" $demo | sed 's/func //' | tr '\n' '|' | sed 's/|$//')
 echo "--- demo on the clean tree (must pass): $tests"
-go test -count=1 -run "^($tests)\$" ./$demodir/ > /tmp/sv_clean.log 2>&1; c1=$?; tail -3 /tmp/sv_clean.log
+go test -count=1 -run "^($tests)\$" ./$demodir/ > /tmp/sv_clean_$name.log 2>&1; c1=$?; tail -3 /tmp/sv_clean_$name.log
 git apply $src/patch.diff || { echo "PATCH DOES NOT APPLY"; exit 2; }
 echo "--- build with the change"; go build ./... ; b=$?
 echo "--- demo with the change (must fail)"
-go test -count=1 -run "^($tests)\$" ./$demodir/ > /tmp/sv_mut.log 2>&1; c2=$?; tail -5 /tmp/sv_mut.log | cut -c1-200
+go test -count=1 -run "^($tests)\$" ./$demodir/ > /tmp/sv_mut_$name.log 2>&1; c2=$?; tail -5 /tmp/sv_mut_$name.log | cut -c1-200
 rm $wt/$demodir/zz_seed_demo_test.go
 echo "--- existing tests with the change (must pass)"
 pk="./pkg/wal/ ./pkg/memtable/ ./pkg/sstable/... ./pkg/engine/... ./pkg/transaction/ ./pkg/compaction/ ./pkg/common/... ./pkg/config/ ./pkg/grpc/... ./pkg/bloom_filter/ $@"
